@@ -1,14 +1,14 @@
 // Kani harnesses for ipv4/reassembly/bitvec.rs - injected (add-only) as `mod vx_kani_bitvec`.
-// BOUNDED twins of the Verus contracts in unit reasm (which are unbounded): every bitmap of at most 4 bytes with every
-// byte content, every index / length up to 40.  They exist so that a rewrite of these functions that Verus cannot
+// BOUNDED twins of the Verus contracts in unit reasm (which are unbounded): every bitmap of at most 3 bytes with every
+// byte content, every index / length up to 26.  They exist so that a rewrite of these functions that Verus cannot
 // ingest (closures, slices, let-else) is still decided on the real code, with a counterexample.
 use super::*;
 #[path = "/verif/vx/kani_support.rs"]
 mod sup;
 use sup::*;
 
-const MAXB: usize = 4;
-const MAXI: u16 = 40;
+const MAXB: usize = 3;
+const MAXI: u16 = 26;
 
 fn any_bitvec() -> BitVec {
     let n = (any::<u8>() as usize) % (MAXB + 1);
@@ -40,9 +40,9 @@ fn all_set(b: &BitVec, lo: u16, hi: u16) -> bool {
     all
 }
 
-//# id=bitvec.complete fns=BitVec::complete+get props=C11 kind=bounded bound=bitmaps_of_0_to_4_bytes_all_contents_indices_up_to_40 pair=reasm.BitVec.complete.all_low_bits_set,reasm.BitVec.get.reads_bit
+//# id=bitvec.complete fns=BitVec::complete+get props=C11 kind=bounded bound=bitmaps_of_0_to_3_bytes_all_contents_indices_up_to_26 pair=reasm.BitVec.complete.all_low_bits_set,reasm.BitVec.get.reads_bit
 #[cfg_attr(kani, kani::proof)]
-#[cfg_attr(kani, kani::unwind(42))]
+#[cfg_attr(kani, kani::unwind(28))]
 #[cfg_attr(vx_replay, test)]
 fn h_bitvec_complete() {
     let b = any_bitvec();
@@ -54,9 +54,9 @@ fn h_bitvec_complete() {
     assert_eq!(b.complete(len), all_set(&b, 0, len));
 }
 
-//# id=bitvec.range_complete fns=BitVec::range_complete props=C11 kind=bounded bound=bitmaps_of_0_to_4_bytes_all_contents_indices_up_to_40 pair=reasm.BitVec.range_complete.all_bits_of_the_range_set
+//# id=bitvec.range_complete fns=BitVec::range_complete props=C11 kind=bounded bound=bitmaps_of_0_to_3_bytes_all_contents_indices_up_to_26 pair=reasm.BitVec.range_complete.all_bits_of_the_range_set
 #[cfg_attr(kani, kani::proof)]
-#[cfg_attr(kani, kani::unwind(42))]
+#[cfg_attr(kani, kani::unwind(28))]
 #[cfg_attr(vx_replay, test)]
 fn h_bitvec_range_complete() {
     let b = any_bitvec();
